@@ -454,9 +454,11 @@ def emit_all(data):
         dbs_imports += ["Barril.Gen.%sUnits" % cap, "Barril.Gen.%sCats" % cap]
         dbs_defs.append("def %sDb : Db := ⟨%s, %s, legacyList⟩" % (kind, uname, cname))
     # C06: the compact view of every POSC row (symbol, type, name, slope, written precision, ok) ...
-    crows = ["⟨%d,%d,%d,%s,%s,%s,%d⟩" % (sym(r["sym"]), sym(r["qtype"]), sym(r["name"]),
-                                           _rat(r["tobase"][1] / r["tobase"][2]) if r["tobase"][2] != 0 else "(R 0 1)",
-                                           _rat(r["prec"]), "true" if r["ok"] else "false", i)
+    ident = (F(0), F(1), F(1), F(0))
+    crows = ["⟨%d,%d,%d,%s,%s,%s,%d,%s⟩" % (sym(r["sym"]), sym(r["qtype"]), sym(r["name"]),
+                                              _rat(r["tobase"][1] / r["tobase"][2]) if r["tobase"][2] != 0 else "(R 0 1)",
+                                              _rat(r["prec"]), "true" if r["ok"] else "false", i,
+                                              "true" if (tuple(r["tobase"]) == ident and tuple(r["frombase"]) == ident) else "false")
              for i, r in enumerate(data["posc"]["units"])]
     cnames, cmods_c = em.chunked("poscK", "PoscK", "CRow", crows, imports="import Barril.Model.Compound\n")
     em.add("PoscCompact.lean", "".join("import Barril.Gen.%s\n" % m for m in cmods_c) +
@@ -608,6 +610,8 @@ def emit_all(data):
                "  decide +kernel\n"
                "theorem poscBases_sound : poscBases.all (fun p => baseL p.1 poscC == some p.2) = true := by\n"
                "  simp only [poscBases, List.all_append, %s, Bool.and_self]\n"
+               "/-- the first-listed row of every quantity type is an identity -/\n"
+               "theorem poscBases_ident : poscBases.all (fun p => p.2.ident) = true := by decide +kernel\n"
                "theorem poscBases_complete : poscC.all (fun c => (lookB c.qtype poscBases).isSome) = true :=\n"
                "  poscC_all_of_chunks _ %s\n"
                "theorem poscC_all_c06_indexed : poscC.all (compoundOkOrKnownT poscTree poscBases c06KnownBad) = true :=\n"
